@@ -9,6 +9,7 @@ use std::collections::BTreeMap;
 pub mod base;
 pub mod cache;
 pub mod cfg;
+pub mod config;
 pub mod control;
 pub mod mirror;
 pub mod router;
@@ -45,11 +46,12 @@ pub fn generate(property: &str, tier: &str, seed: u64, idx: u64) -> Spec {
         "C05" => router::c05(&mut rng, thorough, idx),
         "C19" => router::c19(&mut rng, thorough, idx),
         "C20" => mirror::c20(&mut rng, thorough, idx),
+        "C15" => config::c15(&mut rng, thorough, idx),
         "C07" => routing::c07(&mut rng, thorough, idx),
         "C04" => base::c04(&mut rng, thorough, idx),
         "C12" => base::c12(&mut rng, thorough, idx),
         "SELFTEST" => {
-            let props = ["C01", "C02", "C03", "C04", "C12", "C08", "C16", "C07", "C17", "C14", "C18", "C09", "C10", "C11", "C13", "C06", "C05", "C19", "C20"];
+            let props = ["C01", "C02", "C03", "C04", "C12", "C08", "C16", "C07", "C17", "C14", "C18", "C09", "C10", "C11", "C13", "C06", "C05", "C19", "C20", "C15"];
             let p = props[(idx % props.len() as u64) as usize];
             return generate(p, tier, seed ^ 0x5e1f, idx / props.len() as u64);
         }
